@@ -88,9 +88,18 @@ ExpectedOut(c, r) ==
 
 Step(mode) == /\ last = None
               /\ LET r == ResolveCell(cell, mode)
-                 IN last' = [op |-> cell.op, mode |-> mode, res |-> r, out |-> ExpectedOut(cell, r), operands |-> Operands(cell, r)]
+                 IN last' = [op |-> cell.op, mode |-> mode, res |-> r, out |-> ExpectedOut(cell, r), operands |-> Operands(cell, r), same |-> FALSE]
               /\ UNCHANGED cell
-Next == \E mode \in ModeOpts : Step(mode)
+\* the same call with the receiver as its own argument: the options are validated all the same (before any shortcut for equal
+\* operands), and an accepted call returns the zero duration
+DifferenceOps == OpsAll \ {"Duration.round", "PlainDateTime.round", "PlainTime.round", "Instant.round"}
+StepSame == /\ last = None /\ cell.op \in DifferenceOps
+            /\ LET r == ResolveCell(cell, Absent)
+                   o == Operands(cell, r)
+               IN last' = [op |-> cell.op, mode |-> Absent, res |-> r, out |-> IF r.kind = "ok" THEN Ok(ZeroDur) ELSE r,
+                           operands |-> IF "b" \in DOMAIN o THEN [a |-> o.a, b |-> o.a] ELSE o, same |-> TRUE]
+            /\ UNCHANGED cell
+Next == (\E mode \in ModeOpts : Step(mode)) \/ StepSame
 Spec == Init /\ [][Next]_vars
 
 Done == last.op # "none"
